@@ -121,11 +121,36 @@ def extraction(ctx, case):
                 args2.append(b)
             look = gdbworld.build_closure(gdb, gdbworld.Closure('do_it', sig, args2, None, 5, 'zz_iface'))
             extract.extract_message(look, wl.UnresolvedObject(5, None), True, False)
+        nk = [k for k, c in enumerate(codes) if c in 'on']
+        if nk and len(codes) <= 2 and ctx.choose([False, True], 'earlier_bind'):
+            # an earlier wl_registry.bind created an object with THE SAME id (since deleted, or on another connection) and was resolved the way
+            # Message.resolve does it (the untyped new id takes the interface named by the string argument): what is reported for this closure
+            # must not depend on it
+            a0 = args[nk[0]]
+            bid = a0['id']
+            bargs = [{'code': 'u', 'value': 1}, {'code': 's', 'value': 'wl_earlier'}, {'code': 'u', 'value': 1}, {'code': 'n', 'id': bid, 'proxy_id': a0.get('proxy_id', bid), 'type': None}]
+            bclo = gdbworld.build_closure(gdb, gdbworld.Closure('bind', 'usun', bargs, None, 2, 'wl_registry'))
+            bm = extract.extract_message(bclo, wl.UnresolvedObject(2, 'wl_registry'), True, False)
+
+            class _Conn:
+                def wl_display(self):
+                    return None
+
+                def retrieve_object(self, *a):
+                    raise RuntimeError('not in this connection')
+
+                def create_object(self, *a):
+                    raise RuntimeError('not in this connection')
+            try:
+                bm.resolve(_Conn())
+            except AssertionError:
+                pass
         if mode == 'sent':
             gdb._State.frame = gdbworld.frames_sent(gdb, clo, conn_addr)
             conn_id, msg = extract.sent_message()
         else:
-            gdb._State.frame = gdbworld.frames_received(gdb, clo, mode, conn_addr, iface)
+            nested = ctx.choose([False, True], 'nested_dispatch') if len(codes) <= 2 else bool((h // 4) % 2)
+            gdb._State.frame = gdbworld.frames_received(gdb, clo, mode, conn_addr, iface, nested=nested)
             conn_id, msg = extract.received_message()
         # ---- oracle: the closure's own fields
         ctx.check('connection id is the wl_connection address', conn_id == 'gdb_conn:' + hex(conn_addr))
